@@ -1789,3 +1789,5 @@ VARIANTS = [
 
 from rules.c13_kwdefaults import EXPLANATION_FOR_C13 as _E23
 EXPLANATION += _E23
+from rules.c13_round5 import EXPLANATION_FOR_C13 as _E50
+EXPLANATION += _E50
